@@ -33,6 +33,7 @@ def run(ctx):
     rng = ctx.rng
     ctx.rule = ('random unit incident directions x normals of length 1e-3..1e3 and either sign x index pairs with a transmitted '
                 'solution (incl. n1 = n2, dense -> rare below the critical angle) x batch sizes 1-4; distinct by coordinates')
+    __import__('harness.props.gengeom', fromlist=['x']).check_generated_geometry(ctx, 'C11')   # regenerated definitions vs /repo
     N = ctx.n(200, 3000)
     cases, lines = [], []
     for _ in range(N):
